@@ -44,7 +44,10 @@ class P(vlib.Prop):
             "identified items, so one stored request is exported by several calls with independently chosen outcomes.  "
             "refcount harness (queuebatch): EVERY sequence of part results of length 1-4 (quick) / 1-6 (thorough) over "
             "{nil, permanent, other final, shutdown error} through the real persistentQueue + refCountDone, kept/deleted "
-            "compared with the model's kept_after.  Direct oracle on every schedule: see the headers of "
+            "compared with the model's kept_after.  Every family calls Shutdown with a context that is live / already "
+            "cancelled / past its deadline / cancelled during the drain (the model ignores it: the code must too).  "
+            "Queue-less family (150 / 3 000 gated schedules, oracle-only): exporter with retry but without queue and "
+            "batcher, Sends on their own goroutines.  Direct oracle on every schedule: see the headers of "
             "harness/C03/shutdown_test.go and refcount_test.go.")
     trusted_base = [
         "Coq 8.16.1 kernel + vm_compute (coqc); no axioms (Print Assumptions: closed under the global context)",
@@ -63,7 +66,7 @@ class P(vlib.Prop):
         "(timeout sender disabled in the harness); num_consumers >= 1 and, with batching, a worker pool >= 1 (forced by queue_batch.go)",
         "not modelled: queue capacity / block_on_overflow / wait_for_result (C02), max_size splitting (C04; stress-tested only), "
         "back-off durations (the back-off timer may fire at any time), storage failures and process death (C01), "
-        "senders without a queue (Send runs on the caller's goroutine; Shutdown does not wait for it)",
+        "exporters without queue and batcher are not an LTS configuration (oracle-only family vDirect)",
     ]
 
     def extra_checks(self, ctx):
